@@ -194,7 +194,93 @@ def truth_q(o, t, i):
     return t["qual"]
 
 
-def detected_reads(case, files, sample, chrom, idxs, regions, vs=None, cache=None):
+def model_source(bam, chrom):
+    """the alignment records of the contig as pysam delivers them (independent of whatshap), in the shape of `c10.detect`"""
+    import pysam
+    tag = lambda a, t, d: a.get_tag(t) if a.has_tag(t) else d
+    with pysam.AlignmentFile(bam) as af:
+        rgs = [[g["ID"], g.get("SM")] for g in af.header.to_dict().get("RG", [])]
+        alns = []
+        for a in af.fetch(chrom):
+            ps = tag(a, "PS", -1)
+            try:
+                ps = int(ps)
+            except ValueError:
+                ps = None
+            alns.append({"name": a.query_name, "flag": a.flag, "mapq": a.mapping_quality, "rg": tag(a, "RG", None), "start": a.reference_start,
+                         "cigar": [list(x) for x in a.cigartuples] if a.cigartuples else None, "query": a.query_sequence,
+                         "quals": list(a.query_qualities) if a.query_qualities is not None else None,
+                         "bx": tag(a, "BX", ""), "hp": tag(a, "HP", -1), "ps": ps,
+                         "end": a.reference_end})
+    return {"rgs": rgs, "alns": alns}
+
+
+def detect_correspondence(ctx, case, files, sample, chrom, vs, regions, reads):
+    """`c10.detect` (Model/C10Detect.lean: C06's reader configured as run_haplotag does) = the REAL reader:
+    (1) per alignment: what `_alignments_to_reads` yields on `_usable_alignments` (name, strand, span, alleles);
+    (2) per alignment of the BAM, alone: `alnAlleles` = the alleles of the yielded AlignedRead, [] when filtered / nothing detected;
+    (3) the reads of `PhasedInputReader.read` as a set keyed by name (read-set order is a hash order: seam)."""
+    from whatshap.variants import ReadSetReader
+    from whatshap.core import NumericSampleIds
+    from whatshap.utils import IndexedFasta
+    fa, _, bam = files
+    o = case["opts"]
+    irg = bool(o.get("ignore_read_groups"))
+    noref = bool(o.get("no_reference"))
+    try:
+        vjson = [[v.position, v.reference_allele, [v.alternative_allele]] for v in vs]
+    except AttributeError:
+        return
+    bam_sample = None if irg else sample
+    impl_alns, impl_err = None, None
+    reader = ReadSetReader([bam], None if noref else fa, NumericSampleIds(), duplicates=True)
+    try:
+        try:
+            refseq = None if noref else IndexedFasta(fa)[chrom]
+            usable_ = reader._usable_alignments(chrom, bam_sample, regions)
+            impl_alns = [[a.read.name, bool(a.is_supplementary), bool(a.is_reverse), a.reference_start, a.reference_end,
+                          [[v.position, v.allele, v.quality] for v in a.read]]
+                         for a in reader._alignments_to_reads(usable_, vs, bam_sample, refseq, None)]
+        except Exception as e:
+            impl_err = type(e).__name__
+    finally:
+        reader.close()
+    src = model_source(bam, chrom)
+    ends = [a.pop("end") for a in src["alns"]]
+    m = ctx.model.ask(op="c10.detect", sources=[src], ignoreRG=irg, sample=sample, regions=[list(r) for r in regions] if regions is not None else None,
+                      variants=vjson, reference=None if noref else case["contigs"][chrom])
+    ctx.evaluated()
+    where = {"chrom": chrom, "sample": sample, "regions": regions, "opts": o, "variants": vjson}
+    ctx.dist("c10.detect", ("error " + str(impl_err)) if impl_err else f"{'no-reference' if noref else 'reference'}, {min(len(impl_alns), 20) // 5 * 5}+ alignments with alleles")
+    if impl_err is not None or m.get("alnsErr") is not None:
+        if impl_err != m.get("alnsErr"):
+            ctx.disagree("c10.detect/error", where, impl_err, m.get("alnsErr"))
+        return
+    if impl_alns != m.get("alns"):
+        diff = [(a, b) for a, b in zip(impl_alns, m.get("alns") or []) if a != b][:3]
+        ctx.disagree("c10.detect/alignments", where, {"n": len(impl_alns), "first": diff or impl_alns[:3]}, {"n": len(m.get("alns") or []), "first": (m.get("alns") or [])[:3]})
+        return
+    # (2) every alignment on its own
+    it, each = 0, []
+    for a, end in zip(src["alns"], ends):
+        exp = []
+        if it < len(impl_alns):
+            y = impl_alns[it]
+            if (y[0], y[1], y[2], y[3], y[4]) == (a["name"], bool(a["flag"] & 2048), bool(a["flag"] & 16), a["start"], end) and \
+                    (regions is None or any(overlaps({"start": a["start"], "end": end}, r) for r in regions)):
+                exp = y[5]; it += 1
+        each.append(exp)
+    if regions is None and each != m.get("each"):
+        k = next((i for i, (x, y) in enumerate(zip(each, m.get("each") or [])) if x != y), None)
+        ctx.disagree("c10.detect/alignment-alone", dict(where, aln=src["alns"][k] if k is not None else None), each[k] if k is not None else len(each),
+                     (m.get("each") or [None])[k] if k is not None else len(m.get("each") or []))
+        return
+    # (3) the reads
+    if sorted(reads) != sorted(m.get("reads") or [], key=lambda r: r[:2]) and sorted(map(json.dumps, reads)) != sorted(map(json.dumps, m.get("reads") or [])):
+        ctx.disagree("c10.detect/reads", where, sorted(map(json.dumps, reads))[:4], sorted(map(json.dumps, m.get("reads") or []))[:4])
+
+
+def detected_reads(case, files, sample, chrom, idxs, regions, vs=None, cache=None, ctx=None):
     """(b) what whatshap itself detects: the ReadSet of PhasedInputReader, in read-set order.
     vs: the variant objects to use (default: built from the case's variant list, indices idxs)"""
     from whatshap.cli import PhasedInputReader
@@ -218,6 +304,8 @@ def detected_reads(case, files, sample, chrom, idxs, regions, vs=None, cache=Non
                         [[v.position, v.allele, v.quality] for v in r]])
     if cache is not None:
         cache[key] = out
+    if ctx is not None:
+        detect_correspondence(ctx, case, files, sample, chrom, vs, regions, out)
     return out
 
 
@@ -658,7 +746,7 @@ def model_run_check(ctx, case, files, inrecs, outrecs, exp_idx, lines, regions, 
             continue
         for s in used:
             rows, variants = t[s]
-            reads_of[(chrom, s)] = detected_reads(case, files, s, chrom, None, sel[chrom], vs=variants, cache=det_cache)
+            reads_of[(chrom, s)] = detected_reads(case, files, s, chrom, None, sel[chrom], vs=variants, cache=det_cache, ctx=ctx)
     impl_written = [[*pos_of[k], *outrecs[j]["tagvals"]] for j, k in enumerate(exp_idx) if inrecs[k]["chrom"] is not None]
     n_tail_out = sum(1 for k in exp_idx if inrecs[k]["chrom"] is None)
     n_tail_in = sum(1 for r in inrecs if r["chrom"] is None)
@@ -912,7 +1000,7 @@ def run_case(ctx, case, d):
                     idxs = sample_variants(case, s, chrom, regs)
                     info = phase_info(case, s, chrom, idxs, swap)
                     if mode == "detected":
-                        reads = detected_reads(case, files, s, chrom, idxs, regs, cache=det_cache) if not swapped else final[("reads", "detected", chrom, s)]
+                        reads = detected_reads(case, files, s, chrom, idxs, regs, cache=det_cache, ctx=ctx) if not swapped else final[("reads", "detected", chrom, s)]
                         final[("reads", "detected", chrom, s)] = reads
                     else:
                         order, groups, bx = truth_groups(case, inrecs, truth_of, s, chrom, idxs, regs, per_region=(mode == "truth_per_region"))
